@@ -7,6 +7,9 @@ From Coq Require Import List Arith Bool.
 From LokyV Require Import Lib.LedgerLib Lib.PoolLib Gen.Ledger Gen.Pool Model.Pool Proofs.PoolThm.
 From LokyV Require Proofs.LedgerThm Model.Ledger Model.Wake Proofs.WakeThm.
 From LokyV Require Model.FailLoop Proofs.FailLoopThm.
+From LokyV Require Lib.LockLib Model.LockOrder Proofs.LockOrderThm.
+From LokyV Require Gen.LockOrder.
+Module LockOrderG := LokyV.Gen.LockOrder.
 Import ListNotations.
 
 Theorem C01_manager_never_leaves_a_future_unresolved :
@@ -77,3 +80,32 @@ Theorem C01_failing_the_table_never_kills_the_manager :
     (length table < FailLoop.mgr_steps es -> FailLoop.lphase s = FailLoop.Finished).
 Proof. exact FailLoopThm.guarded_loop_never_crashes. Qed.
 Print Assumptions C01_failing_the_table_never_kills_the_manager.
+
+(* ---- no circular wait among the parent's threads (Model/LockOrder.v, Gen/LockOrder.v) ----
+   Gen/LockOrder.v is the relation "entered while held", read off the source on every run: every `with <lock>`, every acquire that
+   can block for ever, every join() of the manager thread / of a worker, every blocking put on the call queue, every polling loop of
+   the resizing thread, every completion of a future (done-callbacks run in the completing thread), transitively through calls --
+   with a rank certificate.  Proved: (general) if whatever a thread waits for ranks above everything it holds, no set of threads
+   can wait for each other in a circle; (instance) the certificate respects the generated relation, one edge aside; hence threads
+   that enter locks along paths of that relation are never deadlocked among themselves.  The excluded edge is finding H15 (a
+   done-callback submitting to a reusable executor while another thread is inside get_reusable_executor): with it the relation has
+   the cycle LFactory -> TMgr -> UserCb -> LFactory and NO rank exists (C01_lock_order_refuted_with_callbacks_on_a_reusable_executor).
+   The simulation compares every (held -> untimed wait) pair of every run with the generated relation. *)
+Theorem C01_no_circular_wait :
+  (forall (rank : LockLib.lk -> nat) (d : list LockOrder.thread),
+     (forall t, In t d -> LockOrder.disciplined rank t) -> ~ LockOrder.deadlocked d) /\
+  LockOrder.respects LockOrderG.lock_rank LockOrder.kept = true /\
+  (forall d : list LockOrder.thread,
+     (forall t h w, In t d -> In h (LockOrder.holds t) -> LockOrder.wants t = Some w -> LockOrder.path LockOrder.kept h w) ->
+     ~ LockOrder.deadlocked d).
+Proof.
+  split; [exact LockOrderThm.no_circular_wait|]. split; [exact LockOrderThm.certificate_ok | exact LockOrderThm.loky_threads_never_wait_in_a_circle].
+Qed.
+Print Assumptions C01_no_circular_wait.
+
+Theorem C01_lock_order_refuted_with_callbacks_on_a_reusable_executor :
+  (~ exists rank, LockOrder.respects rank LockOrderG.lock_edges = true) /\
+  LockOrder.deadlocked [LockOrder.mkthread [LockLib.LFactory] (Some LockLib.TMgr);
+                        LockOrder.mkthread [LockLib.TMgr; LockLib.UserCb] (Some LockLib.LFactory)].
+Proof. split; [exact LockOrderThm.full_relation_refuted | exact LockOrderThm.the_h15_configuration_is_a_circular_wait]. Qed.
+Print Assumptions C01_lock_order_refuted_with_callbacks_on_a_reusable_executor.
